@@ -189,7 +189,9 @@ class MyBytes(bytes):
 SAMPLES = [b"", b"\x00\xff\r\n", "", "text", "téxt€\U0001d11e", 0, 1, -1, 255, 2 ** 31, -(2 ** 63), 10 ** 40, -(10 ** 3000),
            True, False, None, 0.0, -1.5, float("inf"), (1, "a", b"b", None), [1, [2, [3]]], {"k": {"n": (1, 2)}}, {1, 2, 3},
            frozenset((1,)), MyStr("sub"), MyInt(7), MyBytes(b"sub"), 3 + 4j, b"z" * 1000, "y" * 401, list(range(200)),
-           bytes(range(256)) * 3, 12345678, "1234567890" * 50]
+           bytes(range(256)) * 3, 12345678, "1234567890" * 50,
+           # text that codecs and line handling treat specially: byte order marks, non-characters, NUL, line separators
+           "\ufeff", "\ufeffname,price", "a\ufeff", "\ufffe\uffff", "\x00\r\n\t ", "\x85\u2028\u2029", "\ud7ff\ue000\U0010ffff"]
 
 
 def _identity(x):
@@ -256,7 +258,7 @@ BOUNDS = {
     "quick": "symbolic bytes <= 2 bytes, str <= 2 symbolic code points, int in [-30, 130] (solver-enumerated: %d formatting realizes it), bool, None through "
              "PickleSerde and CompressedSerde(min_compress_len=0); CompressedSerde threshold/flag logic with a symbolic value "
              "<= 4 bytes, a symbolic codec output <= 5 bytes, min_compress_len -1..5 and 4 inner flag words (all symbolic); "
-             "34 representative values (ints to 3000 digits, subclasses of str/int/bytes, nested containers, floats) x "
+             "41 representative values (incl. byte-order marks, non-characters, line separators) (ints to 3000 digits, subclasses of str/int/bytes, nested containers, floats) x "
              "pickle protocols 0..5 x {pickle only, zlib, bz2, lzma, identity} x min_compress_len {0,1,10,400}",
     "thorough": "values up to 3 bytes / code points, every pickle protocol for the symbolic part",
 }
